@@ -705,6 +705,10 @@ func (c *rawClient) line(in CIn) []byte {
 		}
 		return []byte(`{"id":"d1","type":"text/plain","content":"hello","to":"postmaster@verif.test/srv"}` + "\n")
 	case "bad":
+		if in.Sub == "msg-no-type" {
+			// well-formed JSON, recognisable as a message, that the envelope decoder rejects (content without type)
+			return []byte(`{"id":"d9","content":"hello","to":"postmaster@verif.test/srv"}` + "\n")
+		}
 		return []byte(`{"state":"bogus-state","id":5}` + "\n")
 	}
 	s := in.Ses
